@@ -858,9 +858,8 @@ def _analyse(case, il):
         if len(fs) != 5:
             return ("%s: malformed step" % what, None, applied)
         if fs[2] != "ok":
-            if header_with_key_decor(ref.root):
-                known.add("C08-key-decor-in-header")
-                continue
+            # (C08-key-decor-in-header was repaired in /repo fd87fcd: a key's comments are written in front of the header;
+            #  an invalid text is a violation again, whatever the stored key's decor)
             return ("%s: the printed text is not valid TOML: %r" % (what, bytes.fromhex(fs[1]) if fs[1] != "-" else b""), None, applied)
         got = parse_dump(fs[3])
         frags = parse_frags(fs[4])
